@@ -242,6 +242,15 @@ def dispatch_targets(P, f, key):
     return out
 
 
+def table_key(P, f, k):
+    """the value of a table key: a constant, or `<package class>.__name__`; NotImplemented otherwise"""
+    key = const_value(k)
+    if key is NotImplemented and isinstance(k, ast.Attribute) and k.attr == '__name__':
+        q = P.canon(f, k.value)
+        key = q.split('.')[-1] if q in P.classes else NotImplemented
+    return key
+
+
 def read_tables(P, f):
     """the dictionary-valued locals of f that act as lookup tables: {name: ({key: value node}, defining statement)}.
     Read are a dict display (also `{}` / dict()) and the unconditional item stores `name[key] = value` that follow it; a key is
@@ -250,17 +259,17 @@ def read_tables(P, f):
     for n in all_nodes(f):
         if isinstance(n, ast.Assign) and len(n.targets) == 1 and isinstance(n.targets[0], ast.Name) and \
                 (isinstance(n.value, ast.Dict) or (isinstance(n.value, ast.Call) and u(n.value.func) == 'dict' and not n.value.args and not n.value.keywords)):
-            items = dict(dict_literal_items(n.value)) if isinstance(n.value, ast.Dict) else {}
-            items = {k: v for k, v in items.items() if k is not NotImplemented}
+            items = {}
+            for k_, v_ in (zip(n.value.keys, n.value.values) if isinstance(n.value, ast.Dict) else []):
+                key = table_key(P, f, k_) if k_ is not None else NotImplemented
+                if key is not NotImplemented:
+                    items[key] = v_
             out[n.targets[0].id] = (items, n)
     for n in all_nodes(f):
         if isinstance(n, ast.Assign) and len(n.targets) == 1 and isinstance(n.targets[0], ast.Subscript) and isinstance(n.targets[0].value, ast.Name) \
                 and n.targets[0].value.id in out and not explicit_guards_of(n, f.node) and in_loop(n, f.node) is None:
             k = n.targets[0].slice
-            key = const_value(k)
-            if key is NotImplemented and isinstance(k, ast.Attribute) and k.attr == '__name__':
-                q = P.canon(f, k.value)
-                key = q.split('.')[-1] if q in P.classes else NotImplemented
+            key = table_key(P, f, k)
             if key is not NotImplemented:
                 out[n.targets[0].value.id][0][key] = n.value
     return out
